@@ -16,6 +16,6 @@ open(f,'w').write(re.sub(old,lambda m:new,s))
 PY
 [ $? -eq 0 ] || { git checkout -- .; exit 3; }
 ( export GOFLAGS=-mod=mod GOPROXY=off GOSUMDB=off GOTOOLCHAIN=local; go build ./... && go test -count=1 ./... 2>&1 | grep -v "^ok\|no test files" | head -5; echo "suite-exit=$?" )
-cd /verif && ./check "$id" "$tier" 2>&1 | grep -v "^  " | tail -6
+cd /verif && ./check "$id" "$tier" 2>&1 | grep -v "^  \|^goroutine\|^\t\|^$\|^runtime\.\|^main\.\|^verif/\|^github.com\|^created by\|^fatal\|^\[" | tail -8
 echo "check-exit=${PIPESTATUS[0]}"
 git -C /repo checkout -- .
